@@ -1099,6 +1099,120 @@ Section Out.
     eapply Forall_impl; [|exact HJ]. intros a [H _]. exact H.
   Qed.
 
+  (* ---------------------------------------------------------------- pending up to junk; the general step out of it *)
+  (* the move-out candidate is pending and the kernel queue holds IN_IGNORED records of descriptors forgotten earlier
+     (the state after a SECOND directory move-out in a row) *)
+  Record PJ (w : world) (k : kst) (r : rstate) (h : bytes) (c : N) (p : bytes) : Prop := {
+    pj_out : POut w (kset_queue k []) r h c p;
+    pj_junk : Forall (junk_ev k r) (k_queue k)
+  }.
+
+  Lemma POut_PJ w k r h c p : POut w k r h c p -> PJ w k r h c p.
+  Proof.
+    intros PO. assert (Hq := po_queue _ _ _ _ _ _ PO). split; [|rewrite Hq; constructor].
+    destruct k as [a1 a2 a3 a4]. cbn in Hq. subst a3. exact PO.
+  Qed.
+
+  (* The first record of the next batch - a junk record, or the first record of the next operation - forgets the departed
+     sub-tree; the rest of the batch is processed exactly as from the synchronised state (kC0, rC) in which the sub-tree
+     is already forgotten, whatever that clean run is.  The operation must not notify a directory inside the departed
+     directory at its new place h. *)
+  Theorem pj_transfer w k r h c p o t' r2 k2 evs : PJ w k r h c p ->
+    (forall d, In d (notified o) -> blw h d = false) ->
+    let k1 := kernel_op k (w_fs w) o in k_queue k1 <> [] ->
+    let rC := fst (forget_tree (wfp r) p (rclr r) (kset_queue k [])) in
+    let kC0 := kset_queue (snd (forget_tree (wfp r) p (rclr r) (kset_queue k []))) [] in
+    read_batch C t' (rC, drainq (kernel_op kC0 (w_fs w) o), []) (k_queue (kernel_op kC0 (w_fs w) o)) = Done (r2, k2, evs) ->
+    k_queue k2 = [] ->
+    exists kb, read_batch C t' (r, drainq k1, []) (k_queue k1) = Done (r2, kb, evs) /\ kset_queue kb [] = k2 /\
+               Forall (junk_ev kb r2) (k_queue kb).
+  Proof.
+    intros [PO HJ] Hnh k1 Qne rC kC0 Hrd Hq2.
+    set (k0 := kset_queue k []) in *.
+    destruct PO as [Ppend Pck Pq Ptight Plt Pwds Plive Pmask Pclean Pcov Pstale].
+    destruct (forget_tree_fold p (wfp r) (rclr r)) as (wds & rC' & Hfold & Hwds).
+    assert (ErC : rC = rC') by (unfold rC; now rewrite Hfold). assert (EkC : kC0 = kset_queue (fold_left krm_watch wds k0) []) by (unfold kC0; now rewrite Hfold).
+    clearbody rC kC0. subst rC kC0. rename rC' into rC. set (kC0 := kset_queue (fold_left krm_watch wds k0) []) in *.
+    rewrite Hfold in Pclean. cbn [fst snd] in Pclean. fold kC0 in Pclean.
+    assert (W := rs_wf _ _ _ _ Pclean).
+    destruct (fold_krm wds k0) as (FA & FB & FD & _).
+    assert (KR : krel (keepf wds) k0 kC0) by (repeat split; cbn; try assumption).
+    assert (Hfz : forall wd, In wd wds -> fz r p wd).
+    { intros wd Hw. destruct (Hwds wd Hw) as (x & A & _ & D). exists x. now split. }
+    assert (NH : forall i, In i (hits (w_fs w) o) -> nohit_ino (keepf wds) k0 i).
+    { intros i Hi kw Hk Ei. destruct (keepf wds kw) eqn:Ek; [reflexivity|]. exfalso.
+      unfold keepf in Ek. apply negb_false_iff, memN_in in Ek.
+      destruct (Pstale kw Hk (Hfz _ Ek)) as (e & He & Ie & Hb).
+      rewrite hits_notified in Hi. apply in_map_iff in Hi as (d & Ed & Hd). specialize (Hnh d Hd).
+      unfold ino_of in Ed. destruct (flookup d (w_fs w)) as [e'|] eqn:El.
+      - destruct (flookup_some _ _ _ El) as [He' Ee']. assert (e' = e) by (apply (ino_inj w); try assumption; congruence). subst e'.
+        congruence.
+      - assert (H0 := wf_fresh w W e He). lia. }
+    assert (KR1 := kernel_op_krel (keepf wds) k0 kC0 (w_fs w) o KR NH).
+    set (k10 := kernel_op k0 (w_fs w) o) in *. set (kCc := kernel_op kC0 (w_fs w) o) in *.
+    destruct KR1 as (KA & KB & KD & KE).
+    (* the junk in front of the kernel queue *)
+    assert (Q : qext (k_queue k) k k0) by (repeat split; cbn; now rewrite ?app_nil_r).
+    assert (JF : jfree (k_queue k) k0).
+    { intros a kw Ha' Hk. rewrite Forall_forall in HJ. destruct (HJ a Ha') as [_ [H _]]. now apply H. }
+    assert (Q1 := kernel_op_qext _ _ _ (w_fs w) o Q JF). fold k1 k10 in Q1.
+    assert (Edr : drainq k1 = drainq k10) by exact (qext_drainq _ _ _ Q1).
+    destruct Q1 as (QA1 & QB1 & QD1 & QE1).
+    set (kF := fold_left krm_watch wds (drainq k10)).
+    destruct (fold_krm wds (drainq k10)) as (GA & GB & GD & ig & GE & GF). fold kF in GA, GB, GD, GE.
+    cbn [drainq kset_queue k_watches k_next_wd k_next_cookie k_queue app] in GA, GB, GD, GE.
+    assert (Hnw : k_next_wd k10 = k_next_wd k0) by apply kernel_op_next_wd.
+    assert (QJ : qextj ig kF (drainq kCc)).
+    { split; [repeat split; cbn; try congruence; now rewrite GE, app_nil_r|].
+      intros a Ha'. rewrite Forall_forall in GF. specialize (GF a Ha'). split.
+      - cbn. rewrite KB, Hnw. destruct (Hfz _ GF) as (x & _ & Hx). destruct (Plive x _ Hx) as (kw & Hk & Ek). rewrite <- Ek. now apply Plt.
+      - intros kw Hk Eq. cbn in Hk. rewrite KA in Hk. apply filter_In in Hk as [_ Hk]. unfold keepf in Hk.
+        apply negb_true_iff in Hk. rewrite Eq in Hk. apply memN_in in GF. congruence. }
+    destruct (forget_tree_spec p (wfp r) (rclr r) k0 rC (fold_left krm_watch wds k0) Ptight (Hfold k0))
+      as (_ & W0 & _ & W2 & _ & P0 & P2 & _ & PdC & _).
+    cbn [rclr pend pfw] in PdC, P0.
+    (* after the first record the reader is at (rC, kF) and has the records of the operation before it *)
+    assert (Hreal : read_batch C t' (r, drainq k1, []) (k_queue k1) = read_batch C t' (rC, kF, []) (k_queue kCc)).
+    { rewrite Edr, QE1. rewrite KE. destruct (k_queue k) as [|a J'] eqn:EJ.
+      - cbn [app]. destruct (k_queue k10) as [|e1 rest] eqn:EQ; [exfalso; apply Qne; now rewrite QE1|].
+        assert (He1 : is_moved_to (k_mask e1) && N.eqb (k_cookie e1) c && amem N.eqb (k_wd e1) (pfw r) = false).
+        { assert (HT := kernel_op_tocookie k0 (w_fs w) o Pq). fold k10 in HT. rewrite EQ in HT. inversion HT as [|? ? Ht _]; subst.
+          destruct (is_moved_to (k_mask e1)) eqn:Em; [|reflexivity]. rewrite (Ht Em). cbn [andb].
+          assert (Hc : N.eqb (k_next_cookie k0) c = false) by (apply N.eqb_neq; lia). now rewrite Hc. }
+        cbn [read_batch]. unfold read_one at 1. rewrite (settle_pending_forget C r (drainq k10) e1 c p Hmo Ppend He1).
+        change {| wfp := wfp r; pfw := pfw r; mvf := mvf r; calls := calls r; pend := None |} with (rclr r). rewrite Hfold. fold kF.
+        now rewrite (read_one_body_eq C (w_fs w) rC kF [] e1 PdC) || (rewrite read_one_body_eq by exact PdC; reflexivity).
+      - cbn [app read_batch]. inversion HJ as [|? ? Ha HJ']; subst.
+        assert (He1 : is_moved_to (k_mask a) && N.eqb (k_cookie a) c && amem N.eqb (k_wd a) (pfw r) = false).
+        { unfold amem. rewrite (proj1 Ha). now rewrite andb_false_r. }
+        unfold read_one at 1. rewrite (settle_pending_forget C r (drainq k10) a c p Hmo Ppend He1).
+        change {| wfp := wfp r; pfw := pfw r; mvf := mvf r; calls := calls r; pend := None |} with (rclr r). rewrite Hfold. fold kF.
+        rewrite <- (read_one_body_eq C t' rC kF [] a PdC).
+        rewrite (read_skip t' rC kF [] a PdC (P0 _ (proj1 Ha))).
+        apply read_batch_skip; [exact PdC|]. eapply Forall_impl; [|exact HJ']. intros b [Hb _]. now apply P0. }
+    rewrite Hreal.
+    assert (B2 := read_batch_keq (qextj ig) (qextj_add ig) (qextj_rm ig) t' (k_queue kCc) rC kF (drainq kCc) [] QJ). rewrite Hrd in B2.
+    destruct (read_batch C t' (rC, kF, []) (k_queue kCc)) as [[[rb kb] xb]|] eqn:Er; [|contradiction].
+    cbn in B2. destruct B2 as (-> & -> & QJ2).
+    exists kb. split; [reflexivity|].
+    assert (D0 : dinv (fun wd => In wd wds) kF rC).
+    { intros wd Hw. destruct (Hwds wd Hw) as (x & Hb & Hkx & Hx).
+      split; [|split; [|split]].
+      - rewrite GB. cbn. rewrite Hnw. destruct (Plive x _ Hx) as (kw & Hk & Ek). rewrite <- Ek. now apply Plt.
+      - intros kw Hk Eq. rewrite GA in Hk. apply filter_In in Hk as [_ Hk]. unfold keepf in Hk. apply negb_true_iff in Hk.
+        rewrite Eq in Hk. apply memN_in in Hw. congruence.
+      - exact (P2 x wd Hb Hkx Hx).
+      - intros x' Hx'. assert (Hx'' := W0 _ _ Hx'). cbn [rclr wfp] in Hx''.
+        assert (x' = x) by (apply Ptight in Hx''; apply Ptight in Hx; congruence). subst x'.
+        rewrite (W2 x Hb Hkx) in Hx'. discriminate. }
+    assert (D2 := read_batch_dinv _ _ _ _ _ _ _ _ _ D0 Er).
+    destruct QJ2 as [(QA & QB & QD & QE) _]. rewrite Hq2, app_nil_r in QE.
+    split.
+    - clear -QA QB QD Hq2. destruct k2 as [a1 a2 a3 a4], kb as [b1 b2 b3 b4]. cbn in *. subst. reflexivity.
+    - rewrite QE. apply Forall_forall. intros a Ha'. rewrite Forall_forall in GF. specialize (GF a Ha').
+      destruct (D2 _ GF) as (A & B & P1 & _). split; [exact P1 | split; [exact B | exact A]].
+  Qed.
+
   (* the operations covered now: C02's covered_op plus a directory moved out of the tree *)
   Inductive covered_x (w : world) : op -> Prop :=
   | cx_op o : covered_op C w o -> covered_x w o
@@ -1266,6 +1380,140 @@ Section Out.
     intros Hm W Hroot Hc. destruct (construct_cover C Hfaults w W Hroot) as (r0 & k0 & Hcons & I & Cv & Hq & _ & Hp0).
     assert (S : RSync C w k0 r0) by (constructor; try assumption; now apply fisdir_in).
     exists r0, k0. split; [exact Hcons|]. exact (tables_live_along Hm ops w k0 r0 None (RSync_JSync _ _ _ S) Hc).
+  Qed.
+
+  (* ---------------------------------------------------------------- directory move-outs back to back *)
+  (* from the pending state (up to junk): a covered operation *)
+  Theorem pj_step w k r h c p o w' : mask_ok C -> PJ w k r h c p -> covered_op C w o ->
+    (forall d, In d (notified o) -> blw h d = false) -> apply_op w o = Some w' ->
+    let k1 := kernel_op k (w_fs w) o in k_queue k1 <> [] ->
+    exists r' k' evs, read_batch C (w_fs w') (r, drainq k1, []) (k_queue k1) = Done (r', k', evs) /\
+      JSync w' k' r' /\ Forall (rsafe C) evs.
+  Proof.
+    intros M PJ0 Ho Hnh Ha k1 Qne. assert (Pclean := po_clean _ _ _ _ _ _ (pj_out _ _ _ _ _ _ PJ0)).
+    destruct (cover_step_safe C Hfaults w _ _ o w' M Pclean Ho Ha) as (r2 & k2 & evs & Hrd & S2 & Hsafe).
+    destruct (pj_transfer w k r h c p o (w_fs w') r2 k2 evs PJ0 Hnh Qne Hrd (rs_queue _ _ _ _ S2)) as (kb & Hreal & Ek & HJ).
+    exists r2, kb, evs. split; [exact Hreal|]. split; [|exact Hsafe]. split; [now rewrite Ek | exact HJ].
+  Qed.
+
+  (* ... and ANOTHER directory of the tree moved out: the first candidate is forgotten (its descriptors' IN_IGNORED
+     records are queued), the second one is pending *)
+  Theorem pj_out_step w k r h c p p2 q2 w' ep : mask_ok C -> PJ w k r h c p ->
+    npath p2 -> npath q2 -> c_recursive C = true -> apply_op w (Rename p2 q2) = Some w' ->
+    flookup p2 (w_fs w) = Some ep -> f_dir ep = true -> scope C p2 -> p2 <> root -> ~ scope C q2 ->
+    (forall d, In d (notified (Rename p2 q2)) -> blw h d = false) ->
+    let k1 := kernel_op k (w_fs w) (Rename p2 q2) in k_queue k1 <> [] ->
+    exists r' k' evs, read_batch C (w_fs w') (r, drainq k1, []) (k_queue k1) = Done (r', k', evs) /\
+      PJ w' k' r' q2 (k_next_cookie k) p2 /\ Forall (rsafe C) evs.
+  Proof.
+    intros (M1 & M2 & M3) PJ0 Np Nq Hrec Ha El De Sp Hpr Sq Hnh k1 Qne.
+    assert (Pclean := po_clean _ _ _ _ _ _ (pj_out _ _ _ _ _ _ PJ0)).
+    destruct (out_pout w _ _ p2 q2 w' ep Pclean Np Nq Hrec M2 M3 Ha El De Sp Hpr Sq) as (r2 & k2 & evs & Hrd & PO2 & Hsafe).
+    destruct (pj_transfer w k r h c p (Rename p2 q2) (w_fs w') r2 k2 evs PJ0 Hnh Qne Hrd (po_queue _ _ _ _ _ _ PO2))
+      as (kb & Hreal & Ek & HJ).
+    exists r2, kb, evs. split; [exact Hreal|]. split; [|exact Hsafe].
+    assert (Ec : k_next_cookie (kset_queue (snd (forget_tree (wfp r) p (rclr r) (kset_queue k []))) []) = k_next_cookie k).
+    { destruct (forget_tree_fold p (wfp r) (rclr r)) as (wds & rC & Hfold & _). rewrite Hfold. cbn [snd kset_queue k_next_cookie].
+      destruct (fold_krm wds (kset_queue k [])) as (_ & _ & FD & _). now rewrite FD. }
+    rewrite Ec in PO2. split; [now rewrite Ek | exact HJ].
+  Qed.
+
+  (* the invariant and the histories: a directory move-out may follow a directory move-out *)
+  Definition GS2 (w : world) (k : kst) (r : rstate) (hot : option bytes) : Prop :=
+    match hot with
+    | None => JSync w k r
+    | Some h => exists c p, PJ w k r h c p
+    end.
+
+  Definition step_ok2 (w : world) (hot : option bytes) (o : op) : Prop :=
+    match hot with
+    | None => covered_x w o
+    | Some h => covered_x w o /\ watched_parent w o /\ (forall d, In d (notified o) -> blw h d = false)
+    end.
+
+  Fixpoint ops_x2 (w : world) (hot : option bytes) (ops : list op) : Prop :=
+    match ops with
+    | [] => True
+    | o :: ops' =>
+      match apply_op w o with
+      | None => ops_x2 w hot ops'
+      | Some w' => step_ok2 w hot o /\ ops_x2 w' (is_dir_out w o) ops'
+      end
+    end.
+
+  Lemma GS_GS2 w k r hot : GS w k r hot -> GS2 w k r hot.
+  Proof. destruct hot as [h|]; cbn [GS GS2]; [|auto]. intros (c & p & PO). exists c, p. now apply POut_PJ. Qed.
+
+  Lemma cx_out_is w p q ep : npath p -> npath q -> c_recursive C = true -> flookup p (w_fs w) = Some ep -> f_dir ep = true ->
+    scope C p -> p <> root -> ~ scope C q -> is_dir_out w (Rename p q) = Some q.
+  Proof.
+    intros Np Nq Hrec El De Sp Hpr Sq. cbn [is_dir_out]. unfold fisdir. rewrite El, De, Hrec. rewrite (proj2 (scopeb_spec C p) Sp).
+    assert (E1 : beqb p root = false) by now apply beqb_neq. assert (E2 : scopeb C q = false) by now apply scopeb_false.
+    now rewrite E1, E2.
+  Qed.
+
+  Theorem gs2_step w k r hot o w' : c_mask C = WATCHDOG_ALL -> GS2 w k r hot -> step_ok2 w hot o -> apply_op w o = Some w' ->
+    let k1 := kernel_op k (w_fs w) o in
+    exists r' k' evs, read_batch C (w_fs w') (r, drainq k1, []) (k_queue k1) = Done (r', k', evs) /\
+      GS2 w' k' r' (is_dir_out w o) /\ Forall (rsafe C) evs.
+  Proof.
+    intros Hm G Hs Ea k1.
+    assert (M : mask_ok C) by (unfold mask_ok; rewrite Hm; repeat split; vm_compute; discriminate).
+    destruct hot as [h|]; cbn [GS2 step_ok2] in *.
+    - destruct G as (c & p & PJ0). destruct Hs as (Hx & Hwp & Hnh).
+      assert (PO := pj_out _ _ _ _ _ _ PJ0).
+      assert (Qne : k_queue k1 <> []).
+      { apply (record_produced w k r o Hm (rs_wf _ _ _ _ (po_clean _ _ _ _ _ _ PO))); [exact (po_cover _ _ _ _ _ _ PO) | exact (po_mask _ _ _ _ _ _ PO) | exact Hwp]. }
+      destruct Hx as [o Ho|p2 q2 ep Np Nq Hrec El De Sp Hpr Sq].
+      + destruct (pj_step w k r h c p o w' M PJ0 Ho Hnh Ea Qne) as (r' & k' & evs & Hrd & J' & Hsafe).
+        rewrite (covered_op_not_out w o Ho). exists r', k', evs. auto.
+      + destruct (pj_out_step w k r h c p p2 q2 w' ep M PJ0 Np Nq Hrec Ea El De Sp Hpr Sq Hnh Qne) as (r' & k' & evs & Hrd & PJ' & Hsafe).
+        rewrite (cx_out_is w p2 q2 ep Np Nq Hrec El De Sp Hpr Sq). exists r', k', evs. split; [exact Hrd|]. split; [|exact Hsafe].
+        now exists (k_next_cookie k), p2.
+    - destruct Hs as [o Ho|p q ep Np Nq Hrec El De Sp Hpr Sq].
+      + destruct (cover_step_junk w k r o w' M G Ho Ea) as (r' & k' & evs & Hrd & S' & Hsafe).
+        rewrite (covered_op_not_out w o Ho). exists r', k', evs. split; [exact Hrd|]. split; [now apply RSync_JSync | exact Hsafe].
+      + destruct M as (M1 & M2 & M3).
+        destruct (out_pout_junk w k r p q w' ep G Np Nq Hrec M2 M3 Ea El De Sp Hpr Sq) as (r' & k' & evs & Hrd & PO & Hsafe).
+        rewrite (cx_out_is w p q ep Np Nq Hrec El De Sp Hpr Sq). exists r', k', evs. split; [exact Hrd|]. split; [|exact Hsafe].
+        exists (k_next_cookie k), p. now apply POut_PJ.
+  Qed.
+
+  Theorem cover_sequential_x2 : c_mask C = WATCHDOG_ALL -> forall ops w k r hot, GS2 w k r hot -> ops_x2 w hot ops ->
+    exists w' k' r' hot', rrun C w k r ops = Some (w', k', r') /\ GS2 w' k' r' hot'.
+  Proof.
+    intros Hm. induction ops as [|o ops IH]; intros w k r hot G Hc; cbn [rrun ops_x2] in *.
+    - exists w, k, r, hot. now split.
+    - destruct (apply_op w o) as [w'|] eqn:Ea; [|now apply (IH w k r hot)].
+      destruct Hc as [Hs Hc]. destruct (gs2_step w k r hot o w' Hm G Hs Ea) as (r' & k' & evs & -> & G' & _).
+      now apply (IH w' k' r' _ G').
+  Qed.
+
+  Lemma GS2_cover w k r hot : GS2 w k r hot -> wf_fs w /\ Cover C (w_fs w) k r.
+  Proof.
+    destruct hot as [h|]; cbn [GS2].
+    - intros (c & p & [PO _]). split; [apply (rs_wf _ _ _ _ (po_clean _ _ _ _ _ _ PO))|].
+      apply (Cover_ext C (w_fs w) (w_fs w) (kset_queue k [])); [apply (po_cover _ _ _ _ _ _ PO) | auto | reflexivity].
+    - intros [S _]. split; [apply S|]. apply (Cover_ext C (w_fs w) (w_fs w) (kset_queue k [])); [apply S | auto | reflexivity].
+  Qed.
+
+  Theorem cover_from_start_x2 ops w : c_mask C = WATCHDOG_ALL -> wf_fs w -> fisdir root (w_fs w) = true -> ops_x2 w None ops ->
+    exists r0 k0 w' k' r', construct C kinit (w_fs w) = Some (r0, k0) /\ rrun C w k0 r0 ops = Some (w', k', r') /\
+      wf_fs w' /\ Cover C (w_fs w') k' r'.
+  Proof.
+    intros Hm W Hroot Hc. destruct (construct_cover C Hfaults w W Hroot) as (r0 & k0 & Hcons & I & Cv & Hq & _ & Hp0).
+    assert (S : RSync C w k0 r0) by (constructor; try assumption; now apply fisdir_in).
+    destruct (cover_sequential_x2 Hm ops w k0 r0 None (RSync_JSync _ _ _ S) Hc) as (w' & k' & r' & hot' & Hrun & G).
+    exists r0, k0, w', k', r'. split; [assumption|]. split; [assumption|]. now apply (GS2_cover _ _ _ hot').
+  Qed.
+
+  (* the histories of cover_sequential_x are histories of cover_sequential_x2 *)
+  Lemma ops_x_x2 ops : forall w hot, ops_x w hot ops -> ops_x2 w hot ops.
+  Proof.
+    induction ops as [|o ops IH]; intros w hot H; cbn [ops_x ops_x2] in *; [exact I|].
+    destruct (apply_op w o) as [w'|]; [|now apply IH]. destruct H as [Hs H]. destruct hot as [h|]; cbn [step_ok step_ok2 hot_next] in *.
+    - destruct Hs as (Ho & Hwp & Hnh). split; [split; [now apply cx_op | auto]|]. rewrite (covered_op_not_out w o Ho). now apply IH.
+    - split; [exact Hs | now apply IH].
   Qed.
 End Out.
 
